@@ -68,6 +68,9 @@ func checkC05(c *Ctx, r *Report) {
 	floatRounding(c, r, "C05.R6.float-rounding")
 	parseAcceptsWholeField(c, r, "C05.R6.whole-field")
 	chunksCoverString(c, r, "C05.R1.chunks-cover")
+	textIgnoresRdlength(c, r, "C05.R1.text-ignores-rdlength")
+	mappedAddressAgreement(c, r, "C05.R3.mapped-address-agreement")
+	lexerKeepsEscaped(c, r, "C05.R3.lexer-keeps-escaped")
 }
 
 // c05R5: numeric limit agreement: the TTL parser accepts exactly the range the 32-bit header field (and its printer) has.
